@@ -448,6 +448,20 @@ impl PostfixOpManager {
     }
 }
 
+#[cfg(ashyanspada_expression_engine_rs_verif)]
+impl PrefixOpManager {
+    pub(crate) fn verif_names(&self) -> Vec<String> {
+        self.store.lock().unwrap().keys().cloned().collect()
+    }
+}
+
+#[cfg(ashyanspada_expression_engine_rs_verif)]
+impl PostfixOpManager {
+    pub(crate) fn verif_names(&self) -> Vec<String> {
+        self.store.lock().unwrap().keys().cloned().collect()
+    }
+}
+
 #[cfg(test)]
 mod tetst {
     use crate::operator::InfixOpManager;
